@@ -139,6 +139,9 @@ type Cluster struct {
 	DropBecomeLeaderResp int
 	// DropNewTermRespFrom: the next NewTerm answer of that node is lost on the way back
 	DropNewTermRespFrom string
+	// LossBudget: how many successfully executed coordinator RPCs may lose their answer; which
+	// ones is a choice the explorer enumerates (each loss costs one deviation)
+	LossBudget int
 	// RealDisk: see RealDiskNext
 	RealDisk bool
 }
@@ -184,6 +187,7 @@ var RealDiskNext bool
 
 func NewCluster(s *vsched.Sched, names []string, syncData bool) *Cluster {
 	kv.VerifMemTableSize = 1 << 20
+	kv.VerifNoAutoCompactions = RealDiskNext
 	c := &Cluster{RealDisk: RealDiskNext, S: s, Env: NewEnv(s), Nodes: map[string]*Node{}, Repl: NewNet(), SyncData: syncData, SegSize: 64 * 1024, nextGrp: 10,
 		Isolated: map[string]bool{}, CoordCut: map[string]bool{}, ReplCutFrom: map[string]bool{}}
 	c.Repl.Blocked = func(ownerGrp int, follower string) bool {
@@ -357,6 +361,20 @@ func errStr(err error) string {
 	return err.Error()
 }
 
+// lose decides, as an explorable environment choice, whether the answer of an RPC that the node
+// has executed successfully is lost on its way back (LossBudget answers per execution at most).
+func (r *CoordRpc) lose(kind, node string, term int64) bool {
+	if r.c.LossBudget <= 0 {
+		return false
+	}
+	if r.c.S.Choose(2, false) == 0 {
+		return false
+	}
+	r.c.LossBudget--
+	r.c.log(Event{Kind: "lost:" + kind, Node: node, Term: term})
+	return true
+}
+
 func (r *CoordRpc) cut(node string) bool {
 	if r.c.Isolated[node] || r.c.CoordCut[node] {
 		r.c.S.Step(0) // the failure takes a scheduling step, like a refused connection
@@ -373,6 +391,9 @@ func (r *CoordRpc) NewTerm(ctx context.Context, node model.Server, req *proto.Ne
 	resp, err := call(r.c, ctx, node.Internal, "NewTerm", func(n *Node) (*proto.NewTermResponse, error) {
 		return n.Srv.NewTerm(context.Background(), req.CloneVT())
 	})
+	if err == nil && r.lose("NewTerm", node.Internal, req.Term) {
+		return nil, ErrUnavailable
+	}
 	if err == nil && r.c.DropNewTermRespFrom == node.Internal {
 		// the node has fenced itself, the coordinator never learns it
 		r.c.DropNewTermRespFrom = ""
@@ -401,6 +422,9 @@ func (r *CoordRpc) BecomeLeader(ctx context.Context, node model.Server, req *pro
 	resp, err := call(r.c, rctx, node.Internal, "BecomeLeader", func(n *Node) (*proto.BecomeLeaderResponse, error) {
 		return n.Srv.BecomeLeader(rctx, req.CloneVT())
 	})
+	if err == nil && r.lose("BecomeLeader", node.Internal, req.Term) {
+		return nil, ErrUnavailable
+	}
 	if err == nil && r.c.DropBecomeLeaderResp > 0 {
 		r.c.DropBecomeLeaderResp--
 		r.c.log(Event{Kind: "lost:BecomeLeader", Node: node.Internal, Term: req.Term, SentStep: sent})
@@ -422,6 +446,9 @@ func (r *CoordRpc) AddFollower(ctx context.Context, node model.Server, req *prot
 	resp, err := call(r.c, ctx, node.Internal, "AddFollower", func(n *Node) (*proto.AddFollowerResponse, error) {
 		return n.Srv.AddFollower(context.Background(), req.CloneVT())
 	})
+	if err == nil && r.lose("AddFollower", node.Internal, req.Term) {
+		return nil, ErrUnavailable
+	}
 	r.c.log(Event{Kind: "resp:AddFollower", Node: node.Internal, Term: req.Term, Err: errStr(err)})
 	return resp, err
 }
